@@ -153,7 +153,8 @@ def converters(repo, rep):
             # coming_from=True at the call site
             calls = [c for c in ast.walk(fi.node) if isinstance(c, ast.Call) and call_name(c) == "uv_to_spddir"]
             for c in calls:
-                cf = kwarg(c, "coming_from")
+                from ..astutil import bound_args
+                cf = (bound_args(repo, fi, c) or {}).get("coming_from")
                 if cf is None or repo.const(fi.module, cf) is not True:
                     rep.fail("R-C12-1", fi.file, c.lineno, fi.qualname, unparse(c)[:100], "winds must come back as coming-from directions (coming_from=True)")
     # ERA5: log10 densities
